@@ -1,5 +1,5 @@
 (* text -> bint: tonumber(s, base), frombase, the integer-literal reader of bn.lua *)
-From C17 Require Import Model Model2 Model3 Proofs ProofsLib ProofsArith ProofsBits ProofsConv ProofsShift ProofsMisc.
+From C17 Require Import Model Model2 Model3 Proofs ProofsLib ProofsArith ProofsMul ProofsBits ProofsConv ProofsShift ProofsMisc.
 From Coq Require Import ZifyBool.
 Local Open Scope Z_scope.
 Ltac Zify.zify_post_hook ::= Z.div_mod_to_equations.
